@@ -113,6 +113,7 @@ def c04(res):
     W.run_vectors(res, write_vectors("recv-lossy-tail", [{"cfg": cfg, "steps": steps}]), "recv-lossy-tail", layer=W.WORKER)
     # ... and with the real binaries, where the kernel does the dropping: 7 x 65 464 bytes do not fit
     # the server's default socket buffer.  Only the final state is judged (the proxy cannot see drops).
+    # (real time and a real kernel: one_run repeats such a run and returns only the third failure in a row)
     sb, srv = with_server("c04-lossy-window", shared=True, ow=True)
     finals = []
     try:
